@@ -19,7 +19,7 @@ from vlib import gen, runner
 
 PROPERTY = "C02"
 LEVEL = "exploration"
-TIMEOUT = {"quick": 900, "thorough": 5400}
+TIMEOUT = {"quick": 1500, "thorough": 7200}
 RULE = (
     "recipes from vlib.gen.Gen biased to fusion-relevant shapes (chains, diamonds, repeated arguments f(x,x), mixed "
     "levels, multi-output ops, reductions with iterator arguments, selections, rechunks) x requested-array subsets "
